@@ -276,6 +276,18 @@ def catalogue():
     for mk_ in ("m_area", "m_id", "m_ok"):
         A("Catchment.delineate_boundary(mask=%s)" % mk_, lambda a, mk_=mk_: (a["ring"].delineate_boundary(catchment_area_mask=a[mk_]), a["ring"].idxcells_boundary)[1],
           maskargs, ["ring", mk_])
+    def setterargs(r):
+        g = gridmod.Grid("bounded", 6, 5, dtype=np.float64)
+        g.mindata, g.maxdata = 10.0, 60.0
+        src = gridmod.Grid("src", 6, 5, dtype=np.float64)
+        src.data = r.uniform(0, 100, (5, 6))
+        return {"g": g, "arr": np.ascontiguousarray(r.uniform(0, 100, (5, 6))), "src": src}
+
+    def set_data(a, key):
+        a["g"].data = a[key].data if key == "src" else a[key]
+        return a["g"].data.copy()
+    A("Grid.data = array (bounded grid)", lambda a: set_data(a, "arr"), setterargs, ["arr"])
+    A("Grid.data = other.data (bounded grid)", lambda a: set_data(a, "src"), setterargs, ["src"])
     A("grid.gsmooth(no mask, NaN cells)", lambda a: gridmod.gsmooth(a["altnan"], coastwin=3, sigma=0.5), gridnan, ["altnan"])
     A("grid.gsmooth(no mask, minval)", lambda a: gridmod.gsmooth(a["altnan"], coastwin=3, sigma=0.5, minval=0.0), gridnan, ["altnan"])
     A("Grid.slice(NaN cells)", lambda a: a["altnan"].slice(a["xy"]), gridnan, ["altnan", "xy"])
